@@ -1,5 +1,6 @@
 import PelProofs.FramesPel
 import PelProofs.PelPropsAux
+import PelProofs.Registry
 import PelGen.Live
 import PelProps.Golden
 /-
@@ -59,8 +60,12 @@ theorem no_callout_section (T : Tables) (env : SrcEnv) (h : AHdr) (creator : Tex
     simp only [List.forall_mem_cons, kv_fst, List.not_mem_nil]
     refine ⟨by decide, by decide, fun _ hf => hf.elim⟩
   · refine forall_mem_ite_nil ?_
-    simp only [List.forall_mem_cons, kv_fst, List.not_mem_nil]
-    refine ⟨by decide, by decide, fun _ hf => hf.elim⟩
+    simp only [List.forall_mem_append, List.forall_mem_cons, kv_fst, List.not_mem_nil]
+    refine ⟨⟨by decide, by decide, fun _ hf => hf.elim⟩, ?_⟩
+    split
+    · simp only [List.forall_mem_cons, kv_fst, List.not_mem_nil]
+      exact ⟨by decide, fun _ hf => hf.elim⟩
+    · intro _ hf; simp at hf
   · intro j _; exact hexword_ne_callout j
   · refine forall_mem_ite_nil ?_
     split
@@ -123,5 +128,252 @@ theorem demo_callouts_wf : demoCallouts.WF := by
     e1, e2, e3, e4, e5, e6, e7, e8, e9, e10, List.forall_mem_cons, Option.mem_def]
   simp
   omega
+
+/-! ### the message registry ("Error Details") -/
+
+/-- the SRC's registry key: `"0x" + asciiString[4:8]` and the type `asciiString[0:2]` -/
+def regCode (ascii : Text) : Text := s "0x" ++ (ascii.drop 4).take 4
+def regType (ascii : Text) : Text := ascii.take 2
+
+/-- when an entry matches: it has a reason code that contains the SRC's code as a substring, and its type
+    (BD when absent) is the SRC's type -/
+theorem registry_match_iff (e : RegEntry) (code ty : Text) :
+    e.isMatch code ty = true ↔ ∃ rc, e.reasonCode = some rc ∧ e.type.getD (s "BD") = ty ∧ isInfix code rc = true := by
+  unfold RegEntry.isMatch
+  cases e.reasonCode with
+  | none => simp
+  | some rc => simp
+
+/-- what "the entry found" (`regLookup`, used by `registry_message_shown`) means: the first entry in list order that matches -/
+theorem registry_lookup_first (pre post : List RegEntry) (e : RegEntry) (code ty : Text)
+    (hpre : ∀ p ∈ pre, p.isMatch code ty = false) (he : e.isMatch code ty = true) :
+    regLookup (pre ++ e :: post) code ty = some e := by
+  rw [regLookup_append_of_no_match pre (e :: post) code ty hpre, regLookup_cons_match e post code ty he]
+
+/-- ★ the placeholders `%1`..`%9` of a message are filled, in order of occurrence, with the arguments: for a message made of
+    the segments `segs` with a placeholder between consecutive ones (no segment containing `{`, `}` or `%`) and as many
+    arguments as placeholders, the result is the segments interleaved with the arguments -/
+theorem registry_message (segs : List Text) (digits : List Nat) (args : List Text)
+    (hlen : segs.length = digits.length + 1) (hd : ∀ d ∈ digits, 1 ≤ d ∧ d ≤ 9)
+    (hs : ∀ seg ∈ segs, ∀ c ∈ seg, c ≠ 123 ∧ c ≠ 125 ∧ c ≠ 37)
+    (ha : args.length = digits.length) :
+    fillMsg (joinPlaceholders segs digits) args = some (interleave segs args) :=
+  fillMsg_join segs digits args hlen hd (fun seg h c hc => (hs seg h c hc).2.2) (by omega)
+
+example : fillMsg (joinPlaceholders [s "a ", s " b ", s "."] [2, 2]) [s "X", s "Y"] = some (s "a X b Y.") := by decide
+example : joinPlaceholders [s "a ", s " b ", s "."] [2, 2] = s "a %2 b %2." := by decide
+
+/-- surplus arguments are ignored; with fewer arguments than placeholders the message cannot be built (IndexError) -/
+theorem registry_message_extra_args (segs : List Text) (digits : List Nat) (args : List Text)
+    (hlen : segs.length = digits.length + 1) (hd : ∀ d ∈ digits, 1 ≤ d ∧ d ≤ 9)
+    (hs : ∀ seg ∈ segs, ∀ c ∈ seg, c ≠ 123 ∧ c ≠ 125 ∧ c ≠ 37)
+    (ha : digits.length ≤ args.length) :
+    fillMsg (joinPlaceholders segs digits) args = some (interleave segs args) :=
+  fillMsg_join segs digits args hlen hd (fun seg h c hc => (hs seg h c hc).2.2) ha
+theorem registry_message_too_few_args (segs : List Text) (digits : List Nat) (args : List Text)
+    (hlen : segs.length = digits.length + 1) (hd : ∀ d ∈ digits, 1 ≤ d ∧ d ≤ 9)
+    (hs : ∀ seg ∈ segs, ∀ c ∈ seg, c ≠ 123 ∧ c ≠ 125 ∧ c ≠ 37)
+    (ha : args.length < digits.length) :
+    fillMsg (joinPlaceholders segs digits) args = none :=
+  fillMsg_too_few segs digits args hlen hd (fun seg h c hc => (hs seg h c hc).2.2) ha
+
+example : fillMsg (s "a %1 b %2") [s "X", s "Y", s "Z"] = some (s "a X b Y") := by decide
+example : fillMsg (s "a %1 b %2") [s "X"] = none := by decide
+
+/-- ★ the message shown for an SRC: let `e` be the first registry entry matching the SRC's code and type, with argument
+    sources `srcs` each ending in an ASCII digit 2..9, and a message consisting of `segs` with one placeholder per source.
+    If "Error Details" is shown at all (`errorDetails … = .some ms`) and no hex-word description is filed under the key
+    "Message", then its first member is "Message" and its text is the segments interleaved with `"0x" + lower-case hex`
+    of the SRC words the sources name.  (`buildMessage` itself always succeeds with that text.) -/
+theorem registry_message_shown (reg : List RegEntry) (ascii : Text) (words : List Nat) (hw : words.length = 8)
+    (e : RegEntry) (srcs : List Text) (segs : List Text) (digits : List Nat)
+    (hfind : regLookup reg (regCode ascii) (regType ascii) = some e)
+    (hsrc : e.argSources = some srcs) (hmsg : e.message = joinPlaceholders segs digits)
+    (hlen : segs.length = digits.length + 1) (hd : ∀ d ∈ digits, 1 ≤ d ∧ d ≤ 9)
+    (hs : ∀ seg ∈ segs, ∀ c ∈ seg, c ≠ 123 ∧ c ≠ 125 ∧ c ≠ 37)
+    (hn : srcs.length = digits.length)
+    (hdig : ∀ src ∈ srcs, ∃ c, src.getLast? = some c ∧ 50 ≤ c ∧ c ≤ 57) :
+    buildMessage e words = .ok (interleave segs (srcs.map (srcWordHex words))) ∧
+    ∀ ms, errorDetails reg ascii words = .some ms → (∀ w ∈ e.words, w.prop ≠ some (s "Message")) →
+      ∃ rest, ms = (s "Message", .str (interleave segs (srcs.map (srcWordHex words)))) :: rest := by
+  have hb : buildMessage e words = .ok (interleave segs (srcs.map (srcWordHex words))) := by
+    unfold buildMessage
+    rw [hsrc]
+    simp only
+    rw [argWords_digits words hw srcs hdig]
+    simp only
+    rw [hmsg, hasBrace_join segs digits hd (fun seg h c hc => ⟨(hs seg h c hc).1, (hs seg h c hc).2.1⟩)]
+    simp only [Bool.false_eq_true, if_false]
+    rw [fillMsg_join segs digits _ hlen hd (fun seg h c hc => (hs seg h c hc).2.2) (by rw [List.length_map]; omega)]
+  refine ⟨hb, ?_⟩
+  intro ms hms hprop
+  rw [errorDetails_eq] at hms
+  unfold regCode regType at hfind
+  rw [hfind] at hms
+  simp only [detailsOf, hb] at hms
+  split at hms
+  · cases hms
+  · cases hwd : wordDescs words e.words [] with
+    | fail => rw [hwd] at hms; cases hms
+    | unsupported => rw [hwd] at hms; cases hms
+    | ok descs =>
+      rw [hwd] at hms
+      simp only at hms
+      injection hms with hms
+      have hk : ∀ p ∈ descs, p.1 ≠ s "Message" := by
+        intro p hp heq
+        rcases wordDescs_keys words e.words [] descs hwd p hp with h | ⟨w, hw', hp'⟩
+        · cases h
+        · exact hprop w hw' (by rw [hp', heq])
+      obtain ⟨r', hr'⟩ := objUpdate_head (s "Message") (.str (interleave segs (srcs.map (srcWordHex words)))) descs hk []
+      exact ⟨r', by rw [← hms]; exact hr'⟩
+
+/-- non-vacuity: an entry with two sources and a hex-word description, found behind a non-matching entry whose reason
+    code has the SRC's code as a proper substring of another type -/
+def demoReg : List RegEntry := [
+  { reasonCode := some (s "0x26001234"), type := some (s "BC"), message := s "other", argSources := none, words := [] },
+  { reasonCode := some (s "0x2600"), type := none, message := s "rc %1, then %2", argSources := some [s "SRCWord6", s "SRCWord9"],
+    words := [{ num := s "6", desc := some (s "the rc"), prop := some (s "RC") }] },
+  { reasonCode := some (s "0x2600"), type := some (s "BD"), message := s "shadowed", argSources := none, words := [] }]
+theorem demo_registry_message :
+    errorDetails demoReg (s "BD702600") [0, 0, 0, 0, 0xAB, 0, 0, 0x10] =
+      .some [(s "Message", .str (s "rc 0xab, then 0x10")), (s "RC", .arr [.num 0xAB, .str (s "the rc")])] := rfl
+
+/-- ★ first match: entries in front of the first matching entry are irrelevant … -/
+theorem registry_first_match (pre post : List RegEntry) (e : RegEntry) (ascii : Text) (words : List Nat)
+    (hpre : ∀ p ∈ pre, p.isMatch (regCode ascii) (regType ascii) = false) :
+    errorDetails (pre ++ e :: post) ascii words = errorDetails (e :: post) ascii words := by
+  rw [errorDetails_eq, errorDetails_eq]
+  unfold regCode regType at hpre
+  rw [regLookup_append_of_no_match pre (e :: post) _ _ hpre]
+
+/-- ★ … and so is everything behind it: the first matching entry alone decides -/
+theorem registry_first_match_only (pre post : List RegEntry) (e : RegEntry) (ascii : Text) (words : List Nat)
+    (hpre : ∀ p ∈ pre, p.isMatch (regCode ascii) (regType ascii) = false)
+    (he : e.isMatch (regCode ascii) (regType ascii) = true) :
+    errorDetails (pre ++ e :: post) ascii words = errorDetails [e] ascii words := by
+  rw [registry_first_match pre post e ascii words hpre, errorDetails_eq, errorDetails_eq]
+  unfold regCode regType at he
+  rw [regLookup_cons_match e post _ _ he, regLookup_cons_match e [] _ _ he]
+
+/-- ★ … and when no entry matches there are no error details -/
+theorem registry_no_match (reg : List RegEntry) (ascii : Text) (words : List Nat)
+    (h : ∀ p ∈ reg, p.isMatch (regCode ascii) (regType ascii) = false) :
+    errorDetails reg ascii words = .none := by
+  rw [errorDetails_eq]
+  unfold regCode regType at h
+  rw [regLookup_none reg _ _ h]
+
+example : errorDetails demoReg (s "BD702600") [0, 0, 0, 0, 0xAB, 0, 0, 0x10] =
+    errorDetails (demoReg.drop 1) (s "BD702600") [0, 0, 0, 0, 0xAB, 0, 0, 0x10] := rfl
+example : (demoReg.take 1).all (fun p => !p.isMatch (regCode (s "BD702600")) (regType (s "BD702600"))) = true := by decide
+example : errorDetails demoReg (s "BD702601") [0, 0, 0, 0, 0xAB, 0, 0, 0x10] = .none := rfl
+
+theorem hexword_ne_errorDetails (t : Text) : s "Hex Word " ++ t ≠ s "Error Details" := by
+  have e1 : s "Hex Word " = [72, 101, 120, 32, 87, 111, 114, 100, 32] := by decide
+  have e2 : s "Error Details" = [69, 114, 114, 111, 114, 32, 68, 101, 116, 97, 105, 108, 115] := by decide
+  rw [e1, e2]
+  intro h
+  simp at h
+
+/-- no error details (no match, an empty message, or an SRC type other than BD / 11 / BC): no "Error Details" member -/
+theorem no_error_details (T : Tables) (env : SrcEnv) (h : AHdr) (creator : Text) (allow : Bool) (x : ASrc)
+    (hn : errorDetails env.registry x.ascii x.words = .none ∨
+          ¬ (x.ascii.take 2 = s "BD" ∨ x.ascii.take 2 = s "11" ∨ x.ascii.take 2 = s "BC")) :
+    ∀ l, renderSrc T env h creator allow x = .obj l → ∀ kv ∈ l, kv.1 ≠ s "Error Details" := by
+  intro l hl
+  rw [renderSrc_eq] at hl
+  cases hl
+  simp only [srcSpecMembers, hdrMembers, List.forall_mem_append, List.forall_mem_cons, List.forall_mem_map,
+    List.not_mem_nil, kv_fst]
+  have hnil : ∀ (x : Text × J), x ∈ ([] : List (Text × J)) → x.fst ≠ s "Error Details" := fun _ h => nomatch h
+  repeat' apply And.intro
+  all_goals try decide
+  all_goals try (intro _ hf; exact hf.elim)
+  · refine forall_mem_ite_nil ?_
+    simp only [List.forall_mem_cons, kv_fst, List.not_mem_nil]
+    refine ⟨by decide, by decide, fun _ hf => hf.elim⟩
+  · split
+    · rename_i hc
+      simp only [List.forall_mem_append, List.forall_mem_cons, kv_fst, List.not_mem_nil]
+      refine ⟨⟨by decide, by decide, fun _ hf => hf.elim⟩, ?_⟩
+      rcases hn with hn | hn
+      · rw [hn]; exact hnil
+      · exact absurd (by rcases hc with (hc | hc) | hc <;> simp [hc]) hn
+    · exact hnil
+  · intro j _; exact hexword_ne_errorDetails _
+  · split
+    · exact hnil
+    · simp only [List.forall_mem_cons, kv_fst]; exact ⟨by decide, hnil⟩
+  · refine forall_mem_ite_nil ?_
+    split
+    · simp only [List.forall_mem_cons, kv_fst]; exact ⟨by decide, hnil⟩
+    · exact hnil
+
+/-- with an empty registry (the situation of every theorem stated before the registry was modelled, and of this sandbox)
+    there is never an "Error Details" member and the registry never prevents display -/
+theorem registry_empty (T : Tables) (env : SrcEnv) (h : AHdr) (creator : Text) (allow : Bool) (x : ASrc)
+    (hr : env.registry = []) :
+    registryDisplayable env x = true ∧
+    ∀ l, renderSrc T env h creator allow x = .obj l → ∀ kv ∈ l, kv.1 ≠ s "Error Details" := by
+  have hnone : errorDetails env.registry x.ascii x.words = .none := by rw [hr]; rfl
+  refine ⟨?_, no_error_details T env h creator allow x (Or.inl hnone)⟩
+  unfold registryDisplayable
+  simp only [hnone]
+  split <;> rfl
+
+/-- ★ error details that can be built are shown: a member "Error Details" holding exactly the registry's answer -/
+theorem error_details_in_render (T : Tables) (env : SrcEnv) (h : AHdr) (creator : Text) (allow : Bool) (x : ASrc)
+    (ms : List (Text × J)) (hty : x.ascii.take 2 = s "BD" ∨ x.ascii.take 2 = s "11" ∨ x.ascii.take 2 = s "BC")
+    (he : errorDetails env.registry x.ascii x.words = .some ms) :
+    ∃ l, renderSrc T env h creator allow x = .obj l ∧ (s "Error Details", J.obj ms) ∈ l := by
+  rw [renderSrc_eq]
+  refine ⟨_, rfl, ?_⟩
+  apply List.mem_append_left
+  apply List.mem_append_left
+  unfold srcSpecMembers
+  apply List.mem_append_left
+  apply List.mem_append_left
+  apply List.mem_append_right
+  simp only
+  rw [if_pos (by rcases hty with h | h | h <;> simp [h]), he]
+  simp [kv]
+
+/-- non-vacuity: the demo registry's answer appears in the rendering of a BD SRC, right after "Guarded" -/
+def demoSrc : ASrc :=
+  { version := 2, flagsHi := 0, resv1 := 0, wordCount := 9, resv2 := 0, size := 72,
+    words := [0, 0, 0, 0, 0xAB, 0, 0, 0x10], ascii := s "BD702600" ++ List.replicate 24 32, callouts := none }
+theorem demo_error_details :
+    errorDetails demoReg demoSrc.ascii demoSrc.words =
+      .some [(s "Message", .str (s "rc 0xab, then 0x10")), (s "RC", .arr [.num 0xAB, .str (s "the rc")])] ∧
+    demoSrc.ascii.take 2 = s "BD" := ⟨rfl, by decide⟩
+theorem demo_src_wf : demoSrc.WF := by
+  have e : s "BD702600" = [66, 68, 55, 48, 50, 54, 48, 48] := by decide
+  simp only [ASrc.WF, demoSrc, isAscii, e]
+  simp
+
+/-- non-vacuity of `registry_message_shown`: its hypotheses hold for the demo entry (two sources, two placeholders) -/
+theorem demo_message_hyps :
+    buildMessage { reasonCode := some (s "0x2600"), type := none, message := s "rc %1, then %2",
+                   argSources := some [s "SRCWord6", s "SRCWord9"],
+                   words := [{ num := s "6", desc := some (s "the rc"), prop := some (s "RC") }] }
+        [0, 0, 0, 0, 0xAB, 0, 0, 0x10] =
+      .ok (interleave [s "rc ", s ", then ", []] ([s "SRCWord6", s "SRCWord9"].map (srcWordHex [0, 0, 0, 0, 0xAB, 0, 0, 0x10]))) :=
+  (registry_message_shown demoReg (s "BD702600") [0, 0, 0, 0, 0xAB, 0, 0, 0x10] rfl _ [s "SRCWord6", s "SRCWord9"]
+    [s "rc ", s ", then ", []] [1, 2] (by decide) rfl (by decide) (by decide) (by decide) (by decide) (by decide)
+    (by
+      intro src hsrc
+      rcases List.mem_cons.1 hsrc with h | h
+      · exact ⟨54, by rw [h]; decide, by decide, by decide⟩
+      · rcases List.mem_cons.1 h with h | h
+        · exact ⟨57, by rw [h]; decide, by decide, by decide⟩
+        · cases h)).1
+
+def demoEnv : SrcEnv := { callout := fun _ => .absent, src := fun _ => .absent, registry := demoReg }
+theorem demo_rendered (T : Tables) (h : AHdr) (creator : Text) (allow : Bool) :
+    ∃ l, renderSrc T demoEnv h creator allow demoSrc = .obj l ∧
+      (s "Error Details", J.obj [(s "Message", .str (s "rc 0xab, then 0x10")), (s "RC", .arr [.num 0xAB, .str (s "the rc")])]) ∈ l :=
+  error_details_in_render T demoEnv h creator allow demoSrc _ (Or.inl demo_error_details.2) demo_error_details.1
+theorem demo_displayable : srcDisplayable demoEnv (s "O") true demoSrc = true := by decide
 
 end Pel.C03
